@@ -1,17 +1,11 @@
-"""Per-property configuration for tools/verif.py."""
-
-def mono_nontrivial(cmd, inp, impl, prev):
-    return prev is not None and impl != prev
-
-PROPS = {
-    "C16": dict(
-        family="c16", session_start={"mono.new"}, trivial=mono_nontrivial,
-        n=dict(quick=700, thorough=6000),
-        exhaustive=dict(quick=False, thorough=False),
-        rule="sessions of 8-24 random drawing/geometry/text operations on canvases 0..64x0..64 (thorough: every "
-             "size once, then random), coordinates in a window 3 canvas sizes beyond every edge; a record is "
-             "non-trivial when the operation changed the implementation's buffer; distinct = distinct record text",
-        trusted_base=["Go int modelled as unbounded Int (no 64-bit overflow in the explored/proved domain)"],
-        assumptions=["coordinates and sizes small enough that Go int arithmetic does not overflow"],
-    ),
-}
+"""Per-property configuration: one module per property under tools/propcfg/ (PROP = run config, CLAIM = manifest text)."""
+import importlib, os, pkgutil, sys
+sys.path.insert(0, os.path.dirname(os.path.abspath(__file__)))
+import propcfg
+PROPS, CLAIMS = {}, {}
+for mi in pkgutil.iter_modules(propcfg.__path__):
+    mod = importlib.import_module("propcfg." + mi.name)
+    if hasattr(mod, "PROP"):
+        PROPS[mi.name] = mod.PROP
+    if hasattr(mod, "CLAIM"):
+        CLAIMS[mi.name] = mod.CLAIM
